@@ -23,7 +23,7 @@ KIND = {
     "R07.1": "S", "R07.2": "T", "R07.4": "S", "R07.5": "S", "R07.6": "S", "R07.7": "W", "R07.8": "W",
     "R08.1": "S", "R08.2": "S", "R08.3": "S", "R08.4": "S",
     "R09.1": "S", "R09.2": "W", "R09.3": "W+S", "R09.4": "W", "R09.5": "S",
-    "R10.1": "S", "R10.2": "S", "R10.3": "S", "R10.4": "S",
+    "R10.1": "S", "R10.2": "S", "R10.3": "S", "R10.4": "S", "R10.5": "W",
     "R11.1": "S", "R11.2": "S", "R11.3": "S", "R11.4": "W",
     "R12.1": "S", "R12.2": "S",
     "R13.1": "S", "R13.2": "S",
